@@ -156,7 +156,8 @@ class World:
             if hop.get("close"):
                 out += "Connection: close\r\n"
             return out.encode() + b"\r\n" + body
-        return b"HTTP/1.1 200 OK\r\nContent-Length: 4\r\n\r\ndone"
+        fs = self.case.get("final_status", 200)
+        return f"HTTP/1.1 {fs} X\r\nContent-Length: 4\r\n\r\ndone".encode()
 
     def location(self, k: int, cur: tuple) -> str | None:
         hop = self.case["chain"][k]
@@ -279,7 +280,13 @@ def run_case(case: dict):
                         yield BODY[7:]
                     kw["data"] = gen()
                 try:
-                    resp = await session.request(case["method"], url, headers=headers, max_redirects=case["max_redirects"], allow_redirects=True, **kw)
+                    if case.get("entry") == "module":
+                        # the module-level convenience function (its own throw-away session around one request)
+                        cm = aiohttp.request(case["method"], url, headers=headers, max_redirects=case["max_redirects"], allow_redirects=True, connector=conn, raise_for_status=bool(case.get("raise_for_status")), **kw)
+                        resp = await cm.__aenter__()
+                        out["_cm"] = cm
+                    else:
+                        resp = await session.request(case["method"], url, headers=headers, max_redirects=case["max_redirects"], allow_redirects=True, raise_for_status=bool(case.get("raise_for_status")), **kw)
                 except Exception as e:  # noqa: BLE001
                     out["exc"] = e
                     out["acquired_after_exc"] = len(conn._acquired)
@@ -293,6 +300,8 @@ def run_case(case: dict):
                 out["acquired"] = len(conn._acquired)
             finally:
                 await session.close()
+                if out.get("_cm") is not None:
+                    await out.pop("_cm")._session.close()
 
         try:
             loop.drive(go(), max_time=1000)
@@ -354,7 +363,8 @@ def check_case(rec: Rec, case: dict) -> None:
              "url_auth": url_auth[0] if (url_auth and url_auth[1] == cur) else None, "jar": dict(jar_by_host.get(cur[1], {}))}
         expect.append(e)
         if k >= len(chain):
-            end = ("ok", 200)
+            fs = case.get("final_status", 200)
+            end = ("exc", "ClientResponseError") if (case.get("raise_for_status") and fs >= 400) else ("ok", fs)
             break
         hop = chain[k]
         if hop.get("set_cookie"):
@@ -446,6 +456,12 @@ def check_case(rec: Rec, case: dict) -> None:
             raise Violation("request-count", f"{len(log)} requests before {excname}, expected {len(expect)}; {desc}")
         if out.get("acquired_after_exc"):
             raise Violation("connection-not-released", f"{out['acquired_after_exc']} connection(s) still acquired after {excname}; {desc}")
+        if end[1] == "ClientResponseError":
+            # raised by raise_for_status for the final response: the hops that led there are its history
+            hist = [h.status for h in exc.history]
+            want = [h["status"] for h in chain]
+            if exc.status != case["final_status"] or hist != want:
+                raise Violation("history", f"ClientResponseError(status={exc.status}).history statuses {hist}, hops were {want}; {desc}")
         if end[1] == "TooManyRedirects":
             hist = [h.status for h in exc.history]
             if hist != [h["status"] for h in chain[:len(hist)]] or len(hist) != M:
@@ -521,8 +537,10 @@ def sampled_cases(draw):
     start_creds = draw(st.booleans()) and "auth" not in secrets
     method = draw(st.sampled_from(["GET", "GET", "HEAD", "POST", "PUT", "PATCH", "DELETE"]))
     body = draw(st.sampled_from(["none", "bytes", "file", "gen", "diskfile_rb", "diskfile_text", "stringio"])) if method != "HEAD" else "none"
+    entry = draw(st.sampled_from(["session", "session", "session", "module"]))
     return {"start": draw(st.integers(0, len(ORIGINS) - 1)), "start_creds": start_creds, "chain": chain, "method": method, "body": body,
-            "secrets": sorted(secrets), "jar": draw(st.booleans()), "max_redirects": draw(st.sampled_from([10, 10, 1, 2, 3, 4, 6]))}
+            "secrets": sorted(secrets), "jar": draw(st.booleans()) and entry == "session", "max_redirects": draw(st.sampled_from([10, 10, 1, 2, 3, 4, 6])),
+            "entry": entry, "final_status": draw(st.sampled_from([200, 200, 200, 404, 500])), "raise_for_status": draw(st.booleans())}
 
 
 def unit_sampled(rec: Rec, n: int, offset: int) -> None:
